@@ -60,6 +60,42 @@ fn read_all(src: usize, text: &[u8], ro: &J) -> Result<(Vec<Value>, Option<J>), 
     r.map_err(|p| format!("panic: {}", panic_json(p)["msg"]))
 }
 
+/// Every value a session yields when the caller keeps going after errors (C17 holds for all of them: an error that
+/// stops in the middle of a multi-byte character must not make the rest of that character the start of a name).
+fn drain(src: usize, datums: bool, text: &[u8], ro: &J) -> Result<Vec<Value>, String> {
+    let o = parse_opts(ro);
+    let r = std::panic::catch_unwind(|| {
+        let mut vs = Vec::new();
+        macro_rules! drive {
+            ($p:expr) => {{
+                let mut p = $p;
+                for _ in 0..(2 * text.len() + 4) {
+                    if datums {
+                        match p.next_datum() {
+                            Ok(Some(d)) => vs.push(Value::from(d)),
+                            Ok(None) => break,
+                            Err(_) => {}
+                        }
+                    } else {
+                        match p.next_value() {
+                            Ok(Some(v)) => vs.push(v),
+                            Ok(None) => break,
+                            Err(_) => {}
+                        }
+                    }
+                }
+            }};
+        }
+        match src {
+            0 => drive!(Parser::from_slice_custom(text, o)),
+            1 => drive!(Parser::from_reader_custom(text, o)),
+            _ => drive!(Parser::from_str_custom(std::str::from_utf8(text).unwrap(), o)),
+        }
+        vs
+    });
+    r.map_err(|p| format!("panic: {}", panic_json(p)["msg"]))
+}
+
 pub struct Runner {
     bad: Vec<J>,
     trace: Vec<J>,
@@ -85,6 +121,23 @@ impl Runner {
             let mk = |rule: &str, why: String| json!({"rule":rule,"why":why,"text":bytes_j(text),"ro":ro,"src":src});
             if hook > 0 {
                 self.bad.push(mk("unchecked", format!("{} ill-formed buffer(s) reached an unchecked UTF-8 conversion", hook)));
+            }
+            // the same input, continuing after every error, through both APIs
+            for datums in [false, true] {
+                self.evals += 1;
+                let d = drain(src, datums, text, ro);
+                let hook = lexpr::parse::verif::take_utf8_violations();
+                if hook > 0 {
+                    self.bad.push(mk("unchecked", format!("continuing after errors: {} ill-formed buffer(s) reached an unchecked UTF-8 conversion", hook)));
+                }
+                match d {
+                    Err(p) => self.bad.push(mk("panic", format!("continuing after errors: {}", p))),
+                    Ok(vs) => {
+                        if !vs.iter().all(strs_ok) {
+                            self.bad.push(mk("str", "continuing after errors: a string, symbol or keyword is not well-formed UTF-8".into()));
+                        }
+                    }
+                }
             }
             match r {
                 Err(p) => self.bad.push(mk("panic", p)),
@@ -184,6 +237,21 @@ pub fn run(cfg: &J) -> J {
         }
         let ro = if i % 2 == 0 { elisp_parse_opts_json() } else { all[rng.gen_range(0..all.len())].clone() };
         r.text(&t, &ro, None, i % 3 == 0);
+    }
+    // errors that stop in the middle of a token, directly followed by a multi-byte character, then more input
+    let prefixes: [&str; 26] = ["\"\\", "#\\x", "#n", "#", "#\\", "\"\\x", "\"\\u", "?\\^", "?\\C-", "?\\N{", "#u8(", "\\", "1", "-", "+.", "#:", "'", ",@",
+                                "(a . ", "#t", "#\\space", "\"\\N{U+", "?\\", "#x", "a\"", "|"];
+    let chars = ["\u{e9}", "\u{3bb}", "\u{4e2d}", "\u{1F600}", "\u{e9}\u{e9}", "\u{3bb}a", "\u{a9}a"];
+    let suffixes = ["", "a", " a\"", ") (b)", "\u{3bb} x", "\" y"];
+    let (dpo, epo) = (default_parse_opts_json(), elisp_parse_opts_json());
+    for pfx in prefixes.iter() {
+        for ch in chars.iter() {
+            for sfx in suffixes.iter() {
+                let t = format!("{}{}{}", pfx, ch, sfx);
+                r.text(t.as_bytes(), &dpo, None, false);
+                r.text(t.as_bytes(), &epo, None, false);
+            }
+        }
     }
     // output side
     let pos = all_print_opts();
